@@ -426,13 +426,16 @@ PROPS["C17"] = dict(
          "PULL binds the port and traffic must start. (churn) a bound PULL with a healthy PUSH peer from another context carrying sequenced "
          "traffic while OTHER sockets of the PULL's context are created, bound / connected to a dead port, and closed in a loop (back to back, or "
          "every 5 / 20 ms) for 3 (6) s with get_option() on the PULL every 0 / 200 us / 5 ms: its API must answer, the healthy connection must "
-         "stay up with a complete stream, a new peer must be served. distinct = scenario.",
+         "stay up with a complete stream, a new peer must be served. (strays) a polled PULL (RCVTIMEO 0 / 2 / 50 ms) with a healthy PUSH peer, "
+         "32 or 4 tasks calling get_option() and 16 stray non-ZeroMQ clients (HTTP request, TLS hello, one byte, nothing) over tcp/ipc on a "
+         "4-worker runtime: same three verdicts. distinct = scenario.",
     assumptions=["reconnect slack 350 ms (the passive reconnect runs on a 100 ms maintenance tick)"],
     shards=lambda tier, seed: [dict(bin="c17", args=["--only", "arith"], timeout=120, name="c17-arith")]
     + sharded("c17", _n(tier, 8, 16), _n(tier, 300, 1200))
     + sharded("c17", 6, 300, extra=["--only", "reconnect"], name="c17-reconnect")
     + sharded("c17", _n(tier, 6, 9), 300, extra=["--only", "refused"], name="c17-refused")
-    + sharded("c17", _n(tier, 4, 6), _n(tier, 300, 900), extra=["--only", "churn"], name="c17-churn"),
+    + sharded("c17", _n(tier, 4, 6), _n(tier, 300, 900), extra=["--only", "churn"], name="c17-churn")
+    + sharded("c17", 4, 600, extra=["--only", "strays"], name="c17-strays"),
     max_parallel=10,
     min_evaluations={"quick": 1000, "thorough": 1500},
 )
